@@ -33,7 +33,9 @@ pub const PAUSE_SITES: &[u32] = &[rv::AM_LEAK_AFTER_RESERVE, rv::AM_PUBLISH_BEFO
 
 pub fn draw_cfg(rng: &mut Rng, only: Option<&str>) -> Cfg {
     let kinds: Vec<Kind> = chan::ALL_KINDS.iter().copied().filter(|k| k.has_async_send() && only.map(|o| k.name() == o).unwrap_or(true)).collect();
-    let kind = *rng.pick(&kinds);
+    let mut kind = *rng.pick(&kinds);
+    // the two kinds with a listed known finding stall in most of their runs (expensive): visit them less often, the other kinds are the canary
+    if kinds.len() > 2 && matches!(kind, Kind::UniMoveAtomic | Kind::UniMoveFullSync) && !rng.chance(1, 4) { kind = *rng.pick(&kinds) }
     let cfgs: Vec<(usize, usize)> = chan::cfgs_for(kind, false).into_iter().filter(|c| c.0 >= 4 && c.0 <= 16 && c.1 <= 2).collect();
     let (n, m) = *rng.pick(&cfgs);
     let streams = 1 + rng.below(m as u64) as usize;
